@@ -9,6 +9,7 @@ import (
 	"reflect"
 	"sort"
 	"strings"
+	"verif/engine/evid"
 
 	"github.com/whatap/golib/io"
 	"github.com/whatap/golib/util/hash"
@@ -392,6 +393,8 @@ func Drain(en reflect.Value, capN int) string {
 
 // Apply invokes op on obj and returns a canonical result string; a panic becomes "panic: …".
 func Apply(obj interface{}, op Op) (res string) {
+	done := evid.OpStart(func() string { return fmt.Sprintf("%T.%s", obj, op.Label) })
+	defer done()
 	defer func() {
 		if r := recover(); r != nil {
 			res = "panic: " + trimPanic(fmt.Sprint(r))
